@@ -84,12 +84,18 @@ def judge(prop, failed, hists, seed):
     findings = C.load_findings()
     cache, viol, known = {}, {}, collections.Counter()
     for sh, case, line, formula in failed:
-        if formula not in FORMULAS[prop]:
+        if formula not in FORMULAS[prop] and not (prop == "C12" and formula == "SafeOps"):
             continue
         if sh not in cache:
             cache[sh] = open(sh).read().splitlines()
         lines = cache[sh]
         ev = json.loads(lines[line - 1])
+        if prop == "C12" and formula == "SafeOps":
+            # a registration call that never returns (a lock left behind by an earlier call): registration has stopped
+            # working while serving goes on - C12's business; other crashes of an operation are C11's
+            if not str(ev.get("crash", "")).startswith("hang"):
+                continue
+            formula = "OpsComplete"
         k = line - 1
         ops = []
         while '"ev":"Hist"' not in lines[k]:
